@@ -141,7 +141,9 @@ type c14Spec struct {
 	E2E   string    `json:"e2e,omitempty"`
 }
 
-var c14Unknown = []string{"NoSuchKey=5", "etpot=1", "Config=3", "ETpot2=1", "dateformat=DateENshort"}
+// arguments that name no key; an entry starting with "!" stands for a token that is no key=value pair at all (a stray
+// word or comment sign on the line): the reader skips it like an unknown key
+var c14Unknown = []string{"NoSuchKey=5", "etpot=1", "!scenarioA", "Config=3", "ETpot2=1", "!#", "dateformat=DateENshort"}
 
 func c14Specs(tier string, seed int) []c14Spec {
 	keys := c14Keys()
@@ -158,6 +160,8 @@ func c14Specs(tier string, seed int) []c14Spec {
 				c14Case{Line: map[string]int{k: v}, NoFile: true},
 				c14Case{Line: map[string]int{k: v}, Order: []string{c14Unknown[0], k, c14Unknown[1]}},
 				c14Case{File: map[string]int{k: v}, Order: []string{c14Unknown[2], c14Unknown[3], c14Unknown[4]}},
+				c14Case{Line: map[string]int{k: v}, Order: []string{"!scenarioA", k}},
+				c14Case{File: map[string]int{k: v}, Line: map[string]int{k: 1 - v}, Order: []string{"NoSuchKey=5", "!#", k, "!note"}},
 				// together with the other kinds of arguments a batch line may carry (crop file and crop parameter overrides, output id)
 				c14Case{Line: map[string]int{k: v}, Order: []string{"CropFile=PARAM.WW", k, "c_MAXAMAX=44"}},
 				c14Case{File: map[string]int{k: v}, Line: map[string]int{k: 1 - v}, Order: []string{"c_TSUM_1=150", "poligonID=Q7", k, "CropFile=PARAM.SM"}},
@@ -372,7 +376,9 @@ func c14Args(cs c14Case) []string {
 	if cs.Order != nil {
 		used := map[string]bool{}
 		for _, o := range cs.Order {
-			if strings.Contains(o, "=") {
+			if strings.HasPrefix(o, "!") {
+				a = append(a, o[1:]) // a token that is no key=value pair
+			} else if strings.Contains(o, "=") {
 				a = append(a, o) // unknown key, literal
 			} else if _, ok := cs.Line[o]; ok {
 				a = append(a, arg(o))
